@@ -343,6 +343,10 @@ def other_edits(w, r, rng, prog, src, spans):
             bad = "BADREF$" if pt != "$" else "BADREF%"
             rest = ", ".join(('""' if t == "$" else "1") for _, t in p["params"][1:])
             edits.append(("byref_type", ["%s %s%s" % (p["name"], bad, (", " + rest) if rest else "")] + lines, ARG_FAMILY, 1))
+            if pt != "$":
+                # a subscripted array element of another numeric type is passed by reference too
+                other = rng.choice([t for t in "%&!#" if t != pt])
+                edits.append(("byref_element_type", ["DIM ZZA%s(1 TO 2)" % other, "%s ZZA%s(1)%s" % (p["name"], other, (", " + rest) if rest else "")] + lines, ARG_FAMILY, 2))
     for name, elines, family, row in edits:
         if lines and lines[-1] == "" and name == "missing_label":
             elines = lines[:-1] + ["GOTO NoSuchLabel9", ""]
